@@ -295,6 +295,17 @@ class ModelCacheMixin:
             )
         )
 
+    def _cached_values(self, e):
+        """
+        The values `e` takes in the cached models - or nothing if some cached model leaves a variable of `e` open (Z3
+        omits unconstrained variables from its models): such a model stands for every value of that variable, so the
+        cached values would not include the extrema.
+        """
+        try:
+            return tuple({m.eval_list([e], allow_unconstrained=False)[0] for m in self._models})
+        except (KeyError, ZeroDivisionError):
+            return ()
+
     #
     # Cached functions
     #
@@ -350,9 +361,7 @@ class ModelCacheMixin:
         # when no extra constraints restrict the solutions.
         min_exhausted = self._min_signed_exhausted if signed else self._min_exhausted
         if len(extra_constraints) == 0 and (e.hash() in self._eval_exhausted or e.hash() in min_exhausted):
-            # we set allow_unconstrained to False because we expect all returned values for e are returned by Z3,
-            # instead of some arbitrarily assigned concrete values.
-            cached = self._get_solutions(e, extra_constraints=extra_constraints, allow_unconstrained=False)
+            cached = self._cached_values(e)
 
         if len(cached) > 0:
 
@@ -373,7 +382,7 @@ class ModelCacheMixin:
         cached = []
         max_exhausted = self._max_signed_exhausted if signed else self._max_exhausted
         if len(extra_constraints) == 0 and (e.hash() in self._eval_exhausted or e.hash() in max_exhausted):
-            cached = self._get_solutions(e, extra_constraints=extra_constraints, allow_unconstrained=False)
+            cached = self._cached_values(e)
 
         if len(cached) > 0:
 
